@@ -16,11 +16,12 @@ import (
 	"go.dedis.ch/kyber/v4/share"
 	rdkg "go.dedis.ch/kyber/v4/share/dkg/rabin"
 	rvss "go.dedis.ch/kyber/v4/share/vss/rabin"
+	"go.dedis.ch/kyber/v4/sign/schnorr"
 
 	"verifharness/internal/kc"
 )
 
-var c11RabinFaults = []string{"none", "absent", "badShareJustified", "badShareUnjustified", "noResponses", "thresholdOne"}
+var c11RabinFaults = []string{"none", "absent", "badShareJustified", "badShareUnjustified", "noResponses", "thresholdOne", "badSecretCommits"}
 
 type rabNode struct {
 	i      int
@@ -148,6 +149,43 @@ func c11RabinScenario(c *kc.Ctx, mock bool, n, t int, faults map[int]string, rng
 		}
 		var sc *rdkg.SecretCommits
 		run(func() { sc, _ = x.gen.SecretCommits() })
+		if sc != nil && x.fault == "badSecretCommits" {
+			// publish commitments of f + h where h vanishes at the evaluation point (index+1) of every
+			// node except the victim: only the victim's share fails, it complains, the others reveal
+			// their shares and the dealer's real commitments are reconstructed
+			h := []kyber.Scalar{w.suite.Scalar().Pick(w.suite.RandomStream())}
+			for j := 0; j < n; j++ {
+				if j == x.victim || j == x.i {
+					continue
+				}
+				root := w.suite.Scalar().SetInt64(int64(j + 1))
+				nh := make([]kyber.Scalar, len(h)+1)
+				for k := range nh {
+					nh[k] = w.suite.Scalar().Zero()
+				}
+				for k, hk := range h {
+					nh[k+1] = w.suite.Scalar().Add(nh[k+1], hk)
+					nh[k] = w.suite.Scalar().Sub(nh[k], w.suite.Scalar().Mul(hk, root))
+				}
+				h = nh
+			}
+			fake := make([]kyber.Point, 0, len(h))
+			for k := 0; k < len(h) || k < len(sc.Commitments); k++ {
+				pt := w.suite.Point().Null()
+				if k < len(h) {
+					pt = w.suite.Point().Mul(h[k], nil)
+				}
+				if k < len(sc.Commitments) {
+					pt = w.suite.Point().Add(pt, sc.Commitments[k])
+				}
+				fake = append(fake, pt)
+			}
+			bad := &rdkg.SecretCommits{Index: sc.Index, Commitments: fake, SessionID: sc.SessionID}
+			if sig, err := schnorr.Sign(w.suite, x.sec, bad.Hash(w.suite)); err == nil {
+				bad.Signature = sig
+				sc = bad
+			}
+		}
 		if sc != nil {
 			scs = append(scs, sc)
 		}
@@ -178,12 +216,30 @@ func c11RabinScenario(c *kc.Ctx, mock bool, n, t int, faults map[int]string, rng
 			}
 		}
 	}
-	for _, rc := range rcs {
-		for _, x := range nodes {
-			if x.fault == "absent" {
-				continue
+	if len(rcs) > 0 {
+		c.CountKind("rabin:reconstruct-phase")
+	}
+	// the broadcast channel may deliver in any order and more than once (also back to the author)
+	for a := len(rcs) - 1; a > 0; a-- {
+		b := rng.Intn(a + 1)
+		rcs[a], rcs[b] = rcs[b], rcs[a]
+	}
+	for _, x := range nodes {
+		if x.fault == "absent" {
+			continue
+		}
+		dup := rng.Intn(3) // 0: once, 1: every message twice in a row, 2: the whole batch twice
+		deliver := rcs
+		if dup == 2 {
+			deliver = append(append([]*rdkg.ReconstructCommits{}, rcs...), rcs...)
+		}
+		for _, rc := range deliver {
+			for rep := 0; rep < 1+dup%2; rep++ {
+				if !run(func() { _ = x.gen.ProcessReconstructCommits(rc) }) && honest(x) {
+					viol("reconstruct-panic", fmt.Sprintf("ProcessReconstructCommits at honest node %d panicked (message from %d about dealer %d, delivery %d, duplication mode %d)", x.i, rc.Index, rc.DealerIndex, rep, dup))
+					return
+				}
 			}
-			run(func() { _ = x.gen.ProcessReconstructCommits(rc) })
 		}
 	}
 	// 5. outputs of the honest parties
@@ -194,6 +250,10 @@ func c11RabinScenario(c *kc.Ctx, mock bool, n, t int, faults map[int]string, rng
 	}
 	var outs []outp
 	allHonest := len(faults) == 0
+	onlyBadCommits := len(faults) == 1 && n-2 >= t // t honest nodes other than the victim reveal their shares
+	for _, f := range faults {
+		onlyBadCommits = onlyBadCommits && f == "badSecretCommits"
+	}
 	for _, x := range nodes {
 		if !honest(x) {
 			continue
@@ -204,6 +264,9 @@ func c11RabinScenario(c *kc.Ctx, mock bool, n, t int, faults map[int]string, rng
 		run(func() { fin = x.gen.Finished() })
 		if fin {
 			run(func() { dks, err = x.gen.DistKeyShare() })
+		}
+		if dks == nil && onlyBadCommits {
+			viol("reconstruction-incomplete", fmt.Sprintf("one dealer published wrong secret commitments for one node; honest node %d finished=%v err=%v", x.i, fin, err))
 		}
 		if dks == nil {
 			if allHonest {
